@@ -50,10 +50,12 @@ Max63 == <<"9","2","2","3","3","7","2","0","3","6","8","5","4","7","7","5","8","
 \* an argument of type "non-negative int" (post_action_delay, prekill_hook_timeout, count, ...)
 UIntOk(s) == FitsNat(s, Max31)
 \* an argument of type int / int64 (signed)
+Abs31 == <<"2","1","4","7","4","8","3","6","4","8">>                                \* 2^31 (magnitude of the least int)
+Abs63 == <<"9","2","2","3","3","7","2","0","3","6","8","5","4","7","7","5","8","0","8">>  \* 2^63
 IntOk(s) == \/ FitsNat(s, Max31)
-            \/ (Len(s) >= 2 /\ s[1] = "-" /\ FitsNat(Tail(s), Max31))
+            \/ (Len(s) >= 2 /\ s[1] = "-" /\ FitsNat(Tail(s), Abs31))
 Int64Ok(s) == \/ FitsNat(s, Max63)
-              \/ (Len(s) >= 2 /\ s[1] = "-" /\ FitsNat(Tail(s), Max63))
+              \/ (Len(s) >= 2 /\ s[1] = "-" /\ FitsNat(Tail(s), Abs63))
 \* floating point argument: a finite plain decimal
 FloatOk(s) == IsSignedDecimal(s)
 BoolOk(s) == s \in {<<"t","r","u","e">>, <<"T","r","u","e">>, <<"1">>, <<"f","a","l","s","e">>, <<"F","a","l","s","e">>, <<"0">>}
